@@ -298,13 +298,7 @@ Definition c13_prop_w3 (k : c07_case) : bool :=
            stream got to the stop block *)
         (match c07_model k with
          | Some (mevs, me) =>
-             negb (me =? 1) || (err =? 1) ||
-             (* a run that delivered nothing and WAITS for a merged file, where the model delivers nothing either, is left to the
-                model comparison (code 1): resumed from a cursor that lies above the stop block AND beyond the last merged
-                file, the real file source polls for the cursor's bundle before it can meet its stop marker, while the model
-                answers stop-block-reached (pre-existing disagreement on the unchanged library: C13 --seed 7 --n 1000 case 751,
-                notes_proof_W3.md W3-C13-M1) *)
-             ((err =? 0) && match events, mevs with [], [] => true | _, _ => false end)
+             negb (me =? 1) || (err =? 1)
          | None => true end))) &&
       (* negative start / first streamable block: the start point *)
       w3_start_clause k &&
